@@ -94,6 +94,16 @@ class C16(Spec):
                 bs += rng.choice([[0xED, 0xA0, 0x80], [0xED, 0xBF, 0xBF], [0xC0, 0xAF], [0xE0, 0x80, 0xAF], [0xF0, 0x80, 0x80, 0xAF],
                                   [0xF4, 0x90, 0x80, 0x80], [0xF0, 0x8F, 0xBF, 0xBF], [0xE0, 0x9F, 0xBF]])
             cases.append({"kind": "utf8", "bytes": bs})
+        # the same classes of sequences behind ASCII runs of every length (word-, SIMD- or chunk-wise validators have
+        # lane / boundary conditions that strings of a few bytes never reach)
+        seqs = [[0x80], [0xBF], [0xC0, 0xAF], [0xC2], [0xC2, 0xA2], [0xC3, 0xA9], [0xDF, 0xBF], [0xE0, 0x80, 0xAF], [0xE0, 0xA0, 0x80], [0xE2, 0x82],
+                [0xE2, 0x82, 0xAC], [0xED, 0x9F, 0xBF], [0xED, 0xA0, 0x80], [0xEF, 0xBF, 0xBF], [0xF0, 0x80, 0x80, 0xAF], [0xF0, 0x90, 0x80, 0x80],
+                [0xF0, 0x9F, 0x98, 0x80], [0xF0, 0x9F, 0x98], [0xF4, 0x8F, 0xBF, 0xBF], [0xF4, 0x90, 0x80, 0x80], [0xF5, 0x80, 0x80, 0x80], [0xFF], [0x7F], [0x00]]
+        tails = [[], [0x7A], [0xC3, 0xA9, 0x20, 0x74, 0x61, 0x69, 0x6C], [0x61] * 9 + [0x80]]
+        for pl in range(0, 41 if ctx.quick() else 133):
+            for sq in seqs:
+                for tl in (tails if ctx.quick() else tails + [[0x61] * 17, [0xE2, 0x82, 0xAC] * 3]):
+                    cases.append({"kind": "utf8", "bytes": [0x61 + (i % 26) for i in range(pl)] + sq + tl})
         return cases
 
     def direct_check(self, case, out):
